@@ -47,7 +47,7 @@ META = dict(
 )
 
 TOL_ATOMS = ('quadpsd', 'quadnsd', 'quaddiag')
-TOWER_ATOMS = ('power', 'pnorm', 'gmean')
+TOWER_ATOMS = ('power', 'powerarr', 'pnorm', 'gmean')
 
 
 def cases(tier, seed, rnd):
